@@ -1,5 +1,6 @@
 """Projections of what the two back-ends deliver for one text (C06).  Total, small, no verdicts in here."""
 import datetime, re
+from . import streamplace as sp
 
 PAIRS = [('Base', 'BaseLoader', 'CBaseLoader'), ('Safe', 'SafeLoader', 'CSafeLoader'), ('Full', 'FullLoader', 'CFullLoader'),
          ('Unsafe', 'UnsafeLoader', 'CUnsafeLoader'), ('Default', 'Loader', 'CLoader')]
@@ -120,8 +121,43 @@ def run_case(yaml, fn):
         return {'o': 'err', 'cls': 'non-YAML ' + type(e).__name__, 'v': 0}
 
 
-def cases(yaml, text, pairs=PAIRS, allow_unsafe=True):
-    """all projections x loader pairs for one text -> [{name, py, c}]"""
+# projections observed under every other delivery than the str one: what the reader / scanner feed into (events) and the
+# whole pipeline behind them once (objects through the C composer / the Python composer)
+DELIVERY_CASES = (('events', 'BaseLoader', 'CBaseLoader', 'Base'), ('objects', 'SafeLoader', 'CSafeLoader', 'Safe'))
+
+
+def delivery_cases(yaml, text, dels):
+    """projections x one loader pair for the text delivered in other forms (StreamPlace.tla: form x read limit)
+    -> ([{name, del, py, c}], [names of deliveries whose form cannot carry the text])"""
+    out, na = [], []
+    for form, step in dels:
+        name = sp.delname(form, step)
+        mk = sp.source(text, form, step)
+        if mk is None:
+            na.append(name)
+            continue
+        for what, pl, cl, pair in DELIVERY_CASES:
+            PL, CL = getattr(yaml, pl), getattr(yaml, cl)
+            if what == 'events':
+                fn = lambda L: [event_proj(e) for e in yaml.parse(mk(), Loader=L)]
+            else:
+                fn = lambda L: obj_proj(list(yaml.load_all(mk(), Loader=L)))
+            out.append({'name': '%s/%s@%s' % (what, pair, name), 'del': name,
+                        'py': run_case(yaml, lambda: fn(PL)), 'c': run_case(yaml, lambda: fn(CL))})
+    return out, na
+
+
+def read_log(yaml, text, form, step, loader):
+    """the read() calls a loader makes on the stream of a delivery -> [(asked, granted, position after the call)]"""
+    mk = sp.source(text, form, step)
+    stream = mk()
+    run_case(yaml, lambda: sum(1 for _ in yaml.parse(stream, Loader=getattr(yaml, loader))))
+    return list(stream.log)
+
+
+def cases(yaml, text, pairs=PAIRS, allow_unsafe=True, dels=()):
+    """all projections x loader pairs for one text (delivered as str), then the cases of the other deliveries
+    -> [{name, del, py, c}]"""
     out = []
     data_c = text
     for name, pl, cl in pairs:
@@ -145,6 +181,10 @@ def cases(yaml, text, pairs=PAIRS, allow_unsafe=True):
         out.append({'name': 'object1/' + name,
                     'py': run_case(yaml, lambda: obj_proj([yaml.load(text, Loader=PL)])),
                     'c': run_case(yaml, lambda: obj_proj([yaml.load(data_c, Loader=CL)]))})
+    for c in out:
+        c['del'] = 'str'
+    if dels:
+        out += delivery_cases(yaml, text, dels)[0]
     return out
 
 
